@@ -173,8 +173,17 @@ func c10(args []string) error {
 	var pass func(s c10sample, doc []int) int
 	// every input is processed twice: with the default settings, and as a domains crawl (--domains-crawl example.com),
 	// which routes outlinks through code of its own
+	dcEvery := 1 // the domains-crawl pass for every dcEvery-th input (thorough tier: every second one)
+	if v, err := strconv.Atoi(os.Getenv("VERIF_C10_DC_EVERY")); err == nil && v > 0 {
+		dcEvery = v
+	}
+	nIn := 0
 	one := func(s c10sample, doc []int) (links int) {
 		links = pass(s, doc)
+		nIn++
+		if nIn%dcEvery != 0 {
+			return links
+		}
 		domainscrawl.Reset()
 		if err := domainscrawl.AddElements([]string{"example.com"}); err != nil {
 			panic(err)
